@@ -66,6 +66,12 @@ CHECKS = {
   text='Generated programs whose loop bodies reassign outer variables, mutate the list they iterate, return early, nest loops, iterate over slices / comprehensions / range with step / zip / enumerate, run under narrow active contexts (3-bit float, fixed point with quantum 4) and use variable names equal to the temporaries the strategies generate (t, n, i, j, m, _src, _i, t2..t12, i3.., ...) are transformed by unroll_for (every loop index and None, times 1..4, PEEL and STRICT), split (factor 1..5 and a variable factor, PEEL and STRICT), unroll_while (times 1..3), elim_iter (both switches), fuse, and the documented compositions (elim_iter then unroll_for, fuse then split); original and transformed programs are run on 10 inputs each with list lengths 0..10, 12, 13, 17 and compared structurally. For STRICT an AssertionError / ValueError on a non-divisible length is the documented outcome.',
   ref='DESIGN.md 1.5, 2/C08',
   note='Trusted: the original program\'s own result. Known finding F27 (elim_iter when the loop body writes the iterated list) is reported as KNOWN-FINDING; every other mechanism fails the check.'),
+ 'C09': dict(
+  technique='differential runtime monitor at Function.__call__: generated caller/callee source modules run before and after inline / monomorphize / close / lift_context',
+  category='exploration',
+  text='Generated modules of up to three helper functions and a caller (callees with and without their own context, called inside nested with-blocks, loops, comprehensions, if-expressions and short-circuit operands, as arguments of other calls, with list arguments they mutate, with local names clashing with the caller\'s, chains of depth 3, multi-return callees and calls in while conditions that must be refused) are transformed by inline (all sites recursive / one level / one level twice, random single sites, restricted to one callee), monomorphize (two pinned caller contexts, pinned argument types), close, lift_context and their compositions; the original is evaluated "in the corresponding way" (for monomorphize: called with ctx=<pinned context>, the result called without) on 8 inputs under several caller contexts including REAL and compared structurally.',
+  ref='DESIGN.md 1.5, 2/C09',
+  note='Trusted: the original program\'s own result. Documented refusals (RuntimeError, ValueError, CallGraphError, TransformDeclined, TransformReferenceError) are counted, not judged.'),
 }
 
 NOT_YET = {}
